@@ -47,7 +47,10 @@ func (ir *implRegistry) ReflectedToType(t reflect.Type) (px.Type, bool) {
 }
 
 func (ir *implRegistry) addTypeMapping(t px.Type, r reflect.Type) {
-	ir.objectTypeToReflect[t.Name()] = r
+	if t.Name() != `` {
+		// anonymous types (derived from unnamed structs) share the empty name, they are found by reflect.Type only
+		ir.objectTypeToReflect[t.Name()] = r
+	}
 	ir.reflectToObjectType[r.String()] = t
 }
 
@@ -78,7 +81,7 @@ func (pr *parentedImplRegistry) ReflectedToType(t reflect.Type) (px.Type, bool) 
 }
 
 func assertUnregistered(ir px.ImplementationRegistry, t px.Type, r reflect.Type) reflect.Type {
-	if rt, ok := ir.TypeToReflected(t); ok {
+	if rt, ok := ir.TypeToReflected(t); ok && t.Name() != `` {
 		if r.String() != rt.String() {
 			panic(px.Error(px.ImplAlreadyRegistered, issue.H{`type`: t}))
 		}
